@@ -767,5 +767,7 @@ func main() {
 	c.Set("rule", "classes S1..S9 of the header comment, each fully enumerated; every input goes through the own reference decoder (accept with fields / reject with reason / outside the quantifier) and through NewAddressFromBytes or NewAddress; accept => Type/NetworkId/PaymentKeyHash/StakeKeyHash/payloads/StakeCredential equal the nibble+payload fields, Bytes()==input, String()==own bech32|base58 of the bytes, NewAddress(String()).Bytes()==input; reject => error. distinct = (class, structural position), byte/char values are folded into one class")
 	c.Assume("CIP-19 layout, BIP-173 bech32 and the Byron address CDDL as transcribed in ref.go/codec.go; own codecs are self-tested against BIP-173 vectors, CRC-32 check value and four real mainnet addresses")
 	c.Assume("inputs whose only irregularity is a non-minimal or >64-bit pointer varint, non-canonical Byron CBOR, or a Shelley address in base58 are outside the property's quantifier: recorded as outcomes, never as violations")
+	// free-running -race pass: concurrent callers on their own inputs (state the library shares between calls)
+	c.RaceAudit("c05")
 	c.Finish()
 }
